@@ -53,6 +53,16 @@ def main():
     e[0]['after'][0] = c18.codes('r_x')
     ok &= show('Trace_OmkmRange', 'range: rejected with the wrong exception', e, ['RejectKind'])
 
+    # an identifier spelt with digits of another script, written back in ASCII
+    ucase = {'kind': 'range', 'ids': ['r_0001', 'r_000\u0662'], 'delim': '_', 'must': False,
+             'calls': [{'form': 'str', 'as': 'str'}]}
+    uev, _ = c18.execute_range(ucase)
+    ok &= show('Trace_OmkmRange', 'range: non-ASCII digit footer rejected (as recorded)', uev, [])
+    e = copy.deepcopy(uev)
+    e[0]['raised'] = ''
+    e[0]['out'] = c18.codes('["r_0001 to r_0002"]')
+    ok &= show('Trace_OmkmRange', 'range: ... renamed to ASCII and merged instead', e, ['NoneAdded', 'NoneLost'])
+
     toks = ['alpha', 'beta', 'gamma', 'delta' * 5, 'epsilon', 'zeta' * 6, 'eta', 'theta']
     wcase = {'kind': 'wrap', 'toks': toks, 'll': 40, 'ml': 60, 'obj': 'list',
              'widths': [[40, 60], [60, 95]]}      # the same list object wrapped twice
